@@ -1,7 +1,7 @@
 use crate::distributions::*;
 
 const EULER_MASCHERONI: f64 = 0.577215664901532860606512090082402431042159335939923598805767234884867726777664670936947063291746749;
-const PISQ6: f64 = std::f64::consts::PI;
+const PISQ6: f64 = std::f64::consts::PI * std::f64::consts::PI / 6.;
 
 /// Implements the [Gumbel](https://en.wikipedia.org/wiki/Gumbel_distribution) distribution.
 #[derive(Debug, Clone, Copy)]
